@@ -29,6 +29,8 @@ GO = "go1.26.8"
 GOROOT_BIN = "/opt/veriftools/go1.26.8/bin"
 MODPATH = "github.com/BlackVectorOps/semantic_firewall/v3"
 NCPU = os.cpu_count() or 4
+EVIDENCE = os.environ.get("VERIF_EVIDENCE_DIR", os.path.join(VERIF, "evidence"))
+REPLAYS = os.environ.get("VERIF_REPLAY_OUT", os.path.join(VERIF, "replays"))
 
 sys.path.insert(0, os.path.dirname(os.path.abspath(__file__)))
 from registry import CHECKS, BINARIES  # noqa: E402
@@ -204,7 +206,7 @@ def launch(cdir, job, idx, subseed, budget_ms, outdir, replay=None, max_runs=0):
     out = os.path.join(outdir, "w%03d.json" % idx)
     env.update({
         "VERIF_SUBSEED": str(subseed), "VERIF_BUDGET_MS": str(budget_ms), "VERIF_OUT": out,
-        "VERIF_CFG": json.dumps(job.get("cfg", {})), "VERIF_REPLAY_DIR": os.path.join(VERIF, "replays"),
+        "VERIF_CFG": json.dumps(job.get("cfg", {})), "VERIF_REPLAY_DIR": REPLAYS,
         "VERIF_MAX_RUNS": str(max_runs), "VERIF_WORKDIR": os.path.join(outdir, "wd%03d" % idx),
     })
     env.update(job.get("env", {}))
@@ -275,7 +277,7 @@ def main():
 def run_check(prop, spec, tier, seed, replay, cdir, key, instr, outdir, t0):
     jobs = spec["jobs"]
     known = load_known()
-    os.makedirs(os.path.join(VERIF, "replays"), exist_ok=True)
+    os.makedirs(REPLAYS, exist_ok=True)
 
     if replay:
         rf = json.load(open(replay))
@@ -351,7 +353,7 @@ def run_check(prop, spec, tier, seed, replay, cdir, key, instr, outdir, t0):
             continue
         text = "".join(open(os.path.join(outdir, f)).read() for f in reports)
         frames = [l.strip() for l in text.splitlines() if "semantic_firewall" in l and "verifsim" not in l and "zz_verif" not in l][:4]
-        rp = os.path.join(VERIF, "replays", "%s-race-%s-%d-%s.txt" % (prop, j["engine"], ss, hashlib.sha256(text.encode()).hexdigest()[:12]))
+        rp = os.path.join(REPLAYS, "%s-race-%s-%d-%s.txt" % (prop, j["engine"], ss, hashlib.sha256(text.encode()).hexdigest()[:12]))
         with open(rp, "w") as f:
             f.write("engine=%s sub_seed=%d cfg=%s\nre-run: VERIF_SEED=%d ./bin/check %s (stress; interleaving is the Go runtime's)\n\n%s" % (j["engine"], ss, json.dumps(j.get("cfg", {})), seed, prop, text))
         race_viols.append({"class": prop + "/data-race", "msg": "race detector report in %s: %s" % (j["engine"], " | ".join(frames)), "replay": rp, "reproduced": True, "count": text.count("WARNING: DATA RACE")})
@@ -435,8 +437,8 @@ def run_check(prop, spec, tier, seed, replay, cdir, key, instr, outdir, t0):
         "assumptions": spec.get("assumptions", []), "wall_s": round(wall, 2),
         "violations": len(printed),
     }
-    os.makedirs(os.path.join(VERIF, "evidence"), exist_ok=True)
-    with open(os.path.join(VERIF, "evidence", prop + ".json"), "w") as f:
+    os.makedirs(EVIDENCE, exist_ok=True)
+    with open(os.path.join(EVIDENCE, prop + ".json"), "w") as f:
         json.dump(ev, f, indent=1, sort_keys=True)
         f.write("\n")
     print("runs=%d nontrivial=%d distinct_nontrivial=%d wall=%.1fs violations=%d" % (runs, nontriv, len(digests), wall, len(printed)))
